@@ -8,7 +8,7 @@ beyond the current run, the elements of a run copied from the marked tree are pu
 
 Side conditions (`wfN`, decidable, defined in the model file): every in-tree origin names a node of the marked tree of the
 same kind whose fields have the same shape (same number of fields, list fields with the same compatibility class and mode),
-primitives that are `==` to the marked value are identical (`primOK`), nodes of other trees carry a tree id `≠ 0`, list
+(no condition on primitives: the repaired comparison is exact, `pyNe_false_eq`), nodes of other trees carry a tree id `≠ 0`, list
 elements are not lists, `Dict` pairs have one kind, a key that is a node or `None` and an origin consistent with key and
 value (`wfPs`, `pairCons`).
 -/
@@ -815,21 +815,19 @@ theorem plainSlots_mark (mark : T) (q : Path) (fi : Nat) :
       rw [← this]
       exact slot_mark mark _ q _ x rfl
 
-theorem scalarSlot_mark (np : NP) (m c : T) (hnp : np ≠ .ast) (hsc : scalar c = true) (hp : primOK c m = true) :
-    scalarSlot np (erase m) c := by
-  refine ⟨fun h => absurd h hnp, fun _ hne => ?_⟩
+/-- the repaired comparison is exact: a scalar that does not differ (value and type) from the slot IS the slot -/
+theorem pyNe_false_eq (c ok : T) (hsc : scalar c = true) (h : pyNe c ok = false) : c = ok := by
   cases c with
-  | nil => cases m <;> simp_all [pyNe, erase]
+  | nil => cases ok <;> simp_all [pyNe]
   | prim v =>
-    cases m with
-    | prim w =>
-      simp only [erase, pyNe, bne_eq_false_iff_eq] at hne
-      simp only [primOK, Bool.or_eq_true, bne_iff_ne, ne_eq, beq_iff_eq] at hp
-      cases hp with
-      | inl h => exact absurd hne h
-      | inr h => rw [h]; rfl
-    | _ => simp_all [pyNe, erase]
+    cases ok with
+    | prim w => simp only [pyNe, bne_eq_false_iff_eq] at h; rw [h]
+    | _ => simp [pyNe] at h
   | _ => simp [scalar] at hsc
+
+theorem scalarSlot_mark (np : NP) (m c : T) (hnp : np ≠ .ast) (hsc : scalar c = true) :
+    scalarSlot np (erase m) c :=
+  ⟨fun h => absurd h hnp, fun _ hne => pyNe_false_eq c (erase m) hsc hne⟩
 
 /-- under an in-tree node (in place or just copied from the marked tree) the output tree holds the marked fields -/
 theorem fieldSlots_mark (mark : T) (q : Path) :
@@ -853,8 +851,8 @@ theorem fieldSlots_mark (mark : T) (q : Path) :
       refine ⟨?_, ih⟩
       have hm : markAt mark (q ++ [fi]) = m := by rw [markAt_snoc, getElem?_of_drop_cons hd]; rfl
       cases c with
-      | nil => exact scalarSlot_mark _ m .nil (by simp) rfl (by simpa [fieldOK] using hsh.1)
-      | prim v => exact scalarSlot_mark _ m (.prim v) (by simp) rfl (by simpa [fieldOK] using hsh.1)
+      | nil => exact scalarSlot_mark _ m .nil (by simp) rfl
+      | prim v => exact scalarSlot_mark _ m (.prim v) (by simp) rfl
       | node o k cs =>
         show slot mark (.fst 0 q) [fi] (erase m) (.node o k cs)
         rw [← hm]; exact slot_mark mark _ q _ _ rfl
@@ -1477,13 +1475,21 @@ theorem recNode_ok (mark : T) : ∀ (n : T) (np : NP) (rel : Path) (outa : T),
     have := ast_hs mark np rel outa .nil hs rfl
     by_cases h : np = .ast
     · subst h; simp at this; simp [this, applyOps, erase]
-    · simp [h, applyOps, applyOp, applyAt, applyAct, erase]
+    · by_cases hp : pyNe .nil outa = true
+      · simp [h, hp, applyOps, applyOp, applyAt, applyAct, erase]
+      · have he := pyNe_false_eq .nil outa rfl (by simpa using hp)
+        subst he
+        simp [h, pyNe, applyOps, erase]
   | .prim v, np, rel, outa, _, hs, _ => by
     rw [recNode]
     have := ast_hs mark np rel outa (.prim v) hs rfl
     by_cases h : np = .ast
     · subst h; simp at this; simp [this, applyOps, erase]
-    · simp [h, applyOps, applyOp, applyAt, applyAct, erase]
+    · by_cases hp : pyNe (.prim v) outa = true
+      · simp [h, hp, applyOps, applyOp, applyAt, applyAct, erase]
+      · have he := pyNe_false_eq (.prim v) outa rfl (by simpa using hp)
+        subst he
+        simp [h, pyNe, applyOps, erase]
   | .many s m cs, _, _, _, hwf, _, _ => by simp [wfN] at hwf
   | .node (.foreign true tid l sg) k cs, np, rel, outa, _, _, _ => by
     rw [recNode_foreign_ok]; simp [applyOps, applyOp, applyAt, applyAct, erase]
